@@ -557,4 +557,7 @@ class FaultedStore(SubCheck):
             env.scratch.drop(path)
 
 
+from ..fuzz import FuzzCampaign  # noqa: E402
+
 SUBCHECKS = [RoundTrip(), FaultedStore()]
+SUBCHECKS.append(FuzzCampaign('c01', SUBCHECKS[0], runs_quick=1500, runs_thorough=40000))
